@@ -150,6 +150,14 @@ Proof.
   rewrite rep_closed_whole_block by exact HP. reflexivity.
 Qed.
 
+Theorem scope_windows_rep_none_spec : forall Tb Pb T, Pb < Tb ->
+  scope_windows (ScRep ScNone Tb Pb 0) T
+  = Ok (map (fun j => (j * (Tb - Pb), Nat.min (j * (Tb - Pb) + Tb) T)) (seq 0 (rep_count Tb Pb T)), 1)
+  /\ forall j, j < rep_count Tb Pb T <-> j * (Tb - Pb) < T - Pb.
+Proof.
+  intros Tb Pb T H. split; [exact (scope_windows_rep_none Tb Pb T H)|intro j; exact (rep_count_spec Tb Pb T j H)].
+Qed.
+
 (** ** without preamble: the plain partition of [0, T) into chunks of [Tb] trials *)
 Definition chunk_window (Tb T j : nat) : nat * nat := (j * Tb, Nat.min ((j + 1) * Tb) T).
 Definition chunk_windows (Tb T : nat) : list (nat * nat) := map (chunk_window Tb T) (seq 0 (ceil_div T Tb)).
@@ -163,6 +171,15 @@ Qed.
 
 Lemma chunk_count_spec : forall Tb T j, 0 < Tb -> (j < ceil_div T Tb <-> j * Tb < T).
 Proof. intros. apply ceil_div_lt. assumption. Qed.
+
+Theorem scope_windows_chunks_spec : forall Tb T, 0 < Tb ->
+  scope_windows (ScRep ScNone Tb 0 0) T
+  = Ok (map (fun j => (j * Tb, Nat.min ((j + 1) * Tb) T)) (seq 0 (ceil_div T Tb)), 1)
+  /\ forall j, j < ceil_div T Tb <-> j * Tb < T.
+Proof.
+  intros Tb T H. split; [|intro j; exact (chunk_count_spec Tb T j H)].
+  rewrite (scope_windows_rep_none Tb 0 T H), rep_windows_no_preamble. reflexivity.
+Qed.
 
 (** it is a partition: trial [t] lies in window number [t / Tb] and in no other *)
 Theorem chunk_windows_partition : forall Tb T j t, 0 < Tb ->
